@@ -66,6 +66,12 @@ def ref_point(P, S, t, shift):
 
 
 def make_points(case):
+    if case["style"] == "grid":
+        # distinct points of a coarse dyadic grid: centroids of Delaunay triangles land EXACTLY on the cell boundary
+        den = case["den"]
+        rng = np.random.default_rng([case["seed"], case["n"], den])
+        idx = rng.choice(den * den, size=case["n"], replace=False)
+        return np.array([[(i // den) / den, (i % den) / den] for i in idx], dtype=float)
     p = gen.points(case["style"], case["n"], case["seed"])
     b = case.get("bits")
     if b:
@@ -153,6 +159,8 @@ def float_margins(P, S, T, shift):
         (nx, ny), m = ref_point(P, S, t, shift)
         for v in (nx / m / S, ny / m / S):
             bnd = min(bnd, abs(v), abs(1 - v))
+        if nx == m * S or ny == m * S:
+            bnd = 0.0      # exactly on the closed side of the cell (decided in exact arithmetic)
     return gap, bnd
 
 
@@ -326,6 +334,8 @@ def prepare_case(ctx, case):
         res.skip("coincident-points")
         return None
     fam = f"{case['style']}/shift={int(shift)}" + ("/dyadic" if case.get("bits") else "/float64")
+    if case["style"] == "grid":
+        fam = f"grid{case['den']}/shift={int(shift)}"
     try:
         lat = voronization.generate_lattice(points.copy(), shift_vertices=shift)
         Lpos = np.array(lat.vertices.positions, dtype=float)
@@ -402,9 +412,15 @@ def evaluate(ctx, cases, label, lloyd=True):
         if gap < 1e-9:
             res.skip("nongeneric-cocircular<1e-9")
             continue
-        if bnd < 1e-9:
+        exact_boundary = (bnd == 0.0)
+        if bnd < 1e-9 and not (exact_boundary and case["shift"] and case.get("bits")):
+            # a float circumcentre (Qhull) or a rounded centroid within 1e-9 of the cell boundary may legitimately fall on either side
             res.skip("nongeneric-vertex-on-cell-boundary<1e-9")
             continue
+        # (exact_boundary, shift_vertices=True, coordinates with <= 30 binary digits: the float centroid (a+b+c)/3 is computed
+        #  exactly, so "in (0,1]" is decided identically by koala and by the exact checker: in the property's domain)
+        if exact_boundary:
+            ex["exact_boundary_cases"] = ex.get("exact_boundary_cases", 0) + 1
         res.count(fam, digest([points.tolist(), case["shift"]]))
         res.traces += 1
         bucket = "N<=10" if n <= 10 else "N<=30" if n <= 30 else "N<=60" if n <= 60 else "N<=200" if n <= 200 else "N>200"
@@ -430,6 +446,11 @@ def evaluate(ctx, cases, label, lloyd=True):
                 key, what = "side-used-twice", "two edges are dual to the same side of a Delaunay triangle (and another side has no edge)"
             else:
                 key, what = "dual-check", f"check_dual rejected the lattice: {diag}"
+            if exact_boundary:
+                key = "boundary-vertex-mod1"
+                what = ("a centroid lies exactly on the closed side x=1 or y=1 of the cell (0,1]^2; " + what +
+                        f"; points {points.tolist()}")
+                ex["exact_boundary_failures"] = ex.get("exact_boundary_failures", 0) + 1
             res.violation(key, f"N={n} {case['style']} shift={case['shift']}: {what}", case)
             continue
         # ---- second sentence: tiling clauses under the side conditions
@@ -500,8 +521,7 @@ def lloyd_domain_ok(ctx, lat, steps):
             pts = np.array([p.center for p in cur.plaquettes])
         except Exception:
             return False
-        if np.any(pts < 0) or np.any(pts >= 1):
-            return False
+        pts = pts % 1.0          # plaquette centres are not wrapped into the cell; the periodic point set is the same
         n = len(pts)
         if len({(float(x), float(y)) for x, y in pts}) != n or n < 2:
             return False
@@ -527,7 +547,7 @@ def lloyd_domain_ok(ctx, lat, steps):
         if not shift_keeps_order(P, S, T):
             return False
         try:
-            cur = voronization.generate_lattice(pts, False)
+            cur = voronization.generate_lattice(np.array([p.center for p in cur.plaquettes]), False)
         except Exception:
             return True     # the generator fails inside the domain: blame it
     return True
@@ -536,7 +556,7 @@ def lloyd_domain_ok(ctx, lat, steps):
 def gen_cases(tier, seed, count=None):
     rng = np.random.default_rng([seed, 3])
     if tier == "quick":
-        count, nmax = count or 132, 60
+        count, nmax = count or 360, 60
     else:
         count, nmax = count or 900, 220
     cases = []
@@ -551,6 +571,10 @@ def gen_cases(tier, seed, count=None):
             n = int(rng.integers(2, nmax + 1))
         cases.append({"style": style, "n": n, "seed": int(rng.integers(0, 2 ** 31)), "shift": bool((i // 6) % 2),
                       "bits": (None if (i // 12) % 3 == 2 else 30), "lloyd": (i % 5 == 0)})
+    for i in range(count // 6):
+        den = (8, 16, 32)[i % 3]
+        cases.append({"style": "grid", "den": den, "n": int(rng.integers(2, 9 if den == 8 else 14)), "seed": int(rng.integers(0, 2 ** 31)),
+                      "shift": bool(i % 4 != 3), "bits": 30, "lloyd": False})
     return cases
 
 
